@@ -23,7 +23,9 @@ type poolCall struct {
 
 func valueFor(key []byte, gen int) []byte { return []byte(fmt.Sprintf("%s#%d", key, gen)) }
 
-func belongsTo(key, data []byte) bool { return bytes.HasPrefix(data, append(append([]byte{}, key...), '#')) }
+func belongsTo(key, data []byte) bool {
+	return bytes.HasPrefix(data, append(append([]byte{}, key...), '#'))
+}
 
 func init() {
 	checks["C13"] = func(rep *Report, tier string, seed int64) {
